@@ -243,6 +243,23 @@ struct transition_table_impl
             auto& source = sm.template get_state<current_state_type>();
             auto& target = sm.template get_state<next_state_type>();
 
+            if constexpr (!std::is_same_v<current_state_type, typename Row::Source>)
+            {
+                // The source is an exit point of a submachine (it was converted to its owner):
+                // take the transition only if that exit pseudostate is active in the submachine.
+                constexpr auto exit_state_id =
+                    current_state_type::template get_state_id<typename Row::Source>();
+                bool exit_state_active = false;
+                for (const auto active_state_id : source.get_active_state_ids())
+                {
+                    exit_state_active |= (active_state_id == exit_state_id);
+                }
+                if (!exit_state_active)
+                {
+                    return process_result::HANDLED_FALSE;
+                }
+            }
+
             if (!call_guard_or_true<Row, HasGuard>(sm, event, source, target))
             {
                 // guard rejected the event, we stay in the current one
